@@ -875,6 +875,7 @@ class Model:
         self.fnsrc = fns
         self._callers = None
         self._callees = {}
+        self._inl_memo = {}
 
     def has(self, path):
         return path in self.fnsrc
@@ -882,7 +883,8 @@ class Model:
     def view(self, path):
         v = self.views.get(path)
         if v is None:
-            v = FnView(self.prog, self.fnsrc[path])
+            from . import inline
+            v = FnView(self.prog, inline.inline_fn(self.fnsrc, self.fnsrc[path], _memo=self._inl_memo))
             v.model = self
             self.views[path] = v
         return v
